@@ -85,6 +85,9 @@ func (l *Link) WritePacket(r *stack.Route, hdr buffer.Prependable, payload buffe
 	w.Log.U64(uint64(f.At))
 	w.Log.Bytes(data)
 	w.Emitted = append(w.Emitted, f)
+	if w.TraceOn {
+		w.Tracef("emit link=%d frame=%d %s", l.Idx, f.ID, describe(f))
+	}
 	if w.OnEmit != nil {
 		w.OnEmit(f)
 	}
@@ -94,28 +97,30 @@ func (l *Link) WritePacket(r *stack.Route, hdr buffer.Prependable, payload buffe
 
 // World is one simulated run.
 type World struct {
-	Rng      *sim.Rand // step generation (explore mode only)
-	yrng     *sim.Rand
-	T0       time.Time
-	Links    []*Link
-	nframes  int
-	Log      sim.Hash
-	Emitted  []*Frame // frames emitted since the last ClearEmitted
-	History  []*Frame // delivered frames, for stale replay (bounded)
-	OnEmit   func(f *Frame)
-	Steps    []Step
-	Tape     []byte // yield decisions taken (1 = yielded)
-	tapePos  int
-	Replay   bool
-	YieldP   float64
-	Faults   map[string]int64
-	Probes   map[string]int64
-	Yields   map[string]int64
-	NSteps   int
-	Viol     *Violation
-	stacks   []*stack.Stack
-	Trace    []string // human-readable event log (kept in memory, written after the bubble)
-	TraceOn  bool
+	Rng       *sim.Rand // step generation (explore mode only)
+	yrng      *sim.Rand
+	T0        time.Time
+	Links     []*Link
+	nframes   int
+	Log       sim.Hash
+	Emitted   []*Frame // frames emitted since the last ClearEmitted
+	History   []*Frame // delivered frames, for stale replay (bounded)
+	OnEmit    func(f *Frame)
+	OnDeliver func(f *Frame) // called before a frame is handed to the receiving stack
+	OnDrop    func(f *Frame)
+	Steps     []Step
+	Tape      []byte // yield decisions taken (1 = yielded)
+	tapePos   int
+	Replay    bool
+	YieldP    float64
+	Faults    map[string]int64
+	Probes    map[string]int64
+	Yields    map[string]int64
+	NSteps    int
+	Viol      *Violation
+	stacks    []*stack.Stack
+	Trace     []string // human-readable event log (kept in memory, written after the bubble)
+	TraceOn   bool
 }
 
 // Violation is the first oracle failure of a run.
@@ -237,9 +242,9 @@ func views(data []byte, mode int) buffer.VectorisedView {
 			sz *= 2
 		}
 		return buffer.NewVectorisedView(len(b), vs)
-	case 2: // two views split inside the headers
-		if len(b) > 30 {
-			return buffer.NewVectorisedView(len(b), []buffer.View{buffer.View(b[:27]), buffer.View(b[27:])})
+	case 2: // two views; like every shipped link endpoint the first one holds at least 128 bytes, i.e. all headers
+		if len(b) > 160 {
+			return buffer.NewVectorisedView(len(b), []buffer.View{buffer.View(b[:128]), buffer.View(b[128:])})
 		}
 	}
 	return buffer.View(b).ToVectorisedView()
@@ -280,6 +285,9 @@ func (w *World) Deliver(link, k, mode int) bool {
 	}
 	w.remember(f)
 	w.Tracef("deliver link=%d frame=%d len=%d", link, f.ID, len(f.Data))
+	if w.OnDeliver != nil {
+		w.OnDeliver(f)
+	}
 	w.Inject(w.Links[l.Peer], f.Proto, f.Data, f.SrcMAC, f.DstMAC, mode)
 	return true
 }
@@ -296,6 +304,9 @@ func (w *World) Drop(link, k int) bool {
 	l.Queue = append(l.Queue[:k], l.Queue[k+1:]...)
 	w.Faults["drop"]++
 	w.Tracef("drop link=%d frame=%d", link, f.ID)
+	if w.OnDrop != nil {
+		w.OnDrop(f)
+	}
 	w.Log.Byte(0xd0)
 	return true
 }
@@ -347,6 +358,7 @@ func (w *World) InFlight() int {
 type FaultCfg struct {
 	Drop, Dup, Reorder, Stale, Delay float64
 	Budget                           int // faults allowed before the wire turns benign
+	Undroppable                      func(f *Frame) bool
 	MaxDelay                         time.Duration
 }
 
@@ -380,7 +392,11 @@ func (w *World) WireStep(fc *FaultCfg) (Step, bool) {
 	r := w.Rng.Float()
 	switch {
 	case r < fc.Drop:
-		return Step{Op: "drop", A: link, B: w.Rng.Intn(len(q))}, true
+		k := w.Rng.Intn(len(q))
+		if fc.Undroppable != nil && fc.Undroppable(q[k]) {
+			return Step{Op: "deliver", A: link, B: 0, C: mode}, true
+		}
+		return Step{Op: "drop", A: link, B: k}, true
 	case r < fc.Drop+fc.Dup:
 		return Step{Op: "dup", A: link, B: w.Rng.Intn(len(q))}, true
 	case r < fc.Drop+fc.Dup+fc.Reorder && len(q) > 1:
